@@ -6,6 +6,12 @@ try:
     PYSTEPS["c07_start"] = steps_start.c07_start
 except Exception as _e:  # keep the registry importable if a step module is broken; the step then fails loudly
     steps_start = None
+try:
+    import steps_thread
+    PYSTEPS["thread_c05"] = steps_thread.run_c05
+    PYSTEPS["thread_c06"] = steps_thread.run_c06
+except Exception as _e:
+    steps_thread = None
 
 def _s(pkg, phase=None, **kw):
     d = dict(pkg=pkg, bin=kw.pop("bin", pkg), phase=phase)
@@ -139,5 +145,22 @@ PROPS = {
         steps=[_s("h-uring", "ops"), _s("h-uring", "drop")],
         assumptions=["reference = direct libc calls in a twin directory / twin sockets; kernel link-severing rules learned through a raw ring and modelled in the reference",
                      "batches <= 3 (thorough 4), rings <= 8; index wrap is C17's concern"],
+    ),
+
+    "C05": dict(
+        level="model_checking",
+        technique="protocol model of spawn/join/drop/thread-exit/kernel-exit (steps = H3 gates), BFS over all interleavings; every maximal trace replayed as a gate schedule on the real no-libc binary (quarantining allocator log + strace); ungated 1..64 live threads; strace fault injection on mmap/clone",
+        steps=[dict(kind="py", fn="thread_c05", name="thread", pkg="probe-thread", bin="probe-thread", phase=None,
+                    builds=(steps_thread.SETUP_BUILDS if steps_thread else []))],
+        assumptions=["ordering at gate granularity; x86_64, debug build of the probe; 2-thread replay = product of single-thread traces with canonical linearisations",
+                     "ungated concurrent-thread runs and the racy drop rely on OS timing (sampled)"],
+    ),
+    "C06": dict(
+        level="model_checking",
+        technique="same protocol model and gate-schedule replay as C05 with the oracle on resources (quarantining counting allocator, strace munmap/exit, /proc maps); scenario mixtures of length <= 3 and per-scenario repetition until the resource fingerprint recurs (lasso)",
+        steps=[dict(kind="py", fn="thread_c06", name="thread", pkg="probe-thread", bin="probe-thread", phase=None,
+                    builds=(steps_thread.SETUP_BUILDS if steps_thread else []))],
+        assumptions=["fingerprint = live (size, align) multiset, maps line count, VmSize, task count; the allocator's internal free lists are C04's concern",
+                     "ordering at gate granularity; x86_64 debug build"],
     ),
 }
